@@ -132,7 +132,12 @@ func c04Corrupt(r *sim.Run, x []byte, flat []*ref.Box) string {
 		if b.Size >= 16 && int(b.Start)+16 <= len(x) {
 			o := int(b.Start)
 			binary.BigEndian.PutUint32(x[o:], 1)
-			v := []uint64{1<<63 - 1, 1 << 63, 1<<63 + uint64(t.Draw(16)), 1<<64 - 1, 1<<63 - uint64(b.Start) - uint64(t.Draw(3)), 1<<62 + uint64(t.Draw(1<<20)), uint64(b.Size) + 8, 1 << 32}[t.Draw(8)]
+			// a size of 2^64-k makes "skip the payload" a seek k bytes BACK: choose k so that it lands on an earlier box
+			back := uint64(16)
+			if e := flat[t.Draw(len(flat))]; e.Start < b.Start {
+				back = uint64(b.Start-e.Start) + 16
+			}
+			v := []uint64{1<<63 - 1, 1 << 63, 1<<63 + uint64(t.Draw(16)), 1<<64 - 1, 1<<63 - uint64(b.Start) - uint64(t.Draw(3)), 1<<62 + uint64(t.Draw(1<<20)), uint64(b.Size) + 8, 1 << 32, -back, -back, -back + 16}[t.Draw(11)]
 			binary.BigEndian.PutUint64(x[o+8:], v)
 			r.Fault("stored-largesize-huge")
 			return fmt.Sprintf("largesize=%#x@%d(%s)", v, o, b.Type)
@@ -191,7 +196,21 @@ func c04Run(r *sim.Run) {
 	// ---- base stream
 	var x []byte
 	name := ""
-	if t.Chance(150) {
+	if t.Chance(80) {
+		// an init segment from a seeded AddEmptyTrack/Set*Descriptor history (ac-3, ec-3, stpp, wvtt, hev1, ... entries)
+		var init *mp4.InitSegment
+		var err error
+		r.Guard("init history", func() { init, _, err = c19Build(r) })
+		if err == nil && init != nil {
+			s := sim.NewSink(nil)
+			if init.Encode(s) == nil {
+				x, name = s.Buf, "built-init"
+			}
+		}
+	}
+	if x != nil {
+		// base chosen
+	} else if t.Chance(150) {
 		var p *work.Production
 		var err error
 		r.Guard("packager", func() {
